@@ -8,12 +8,18 @@
   and a token-level parser `parse` for the JSON-like subset that `encode_cel` emits.
   `Koreo/Gen/EncoderTables.lean` is regenerated from the running encoder and from celpy on every run.
 
-  The one gap (DESIGN.md 5/C11): `value_roundtrip` is stated over the token sequence `toks v`.
-  `encoding_is_token_text` proves that the emitted text is exactly the concatenation of those tokens'
-  texts and `string_token_boundary` proves that a string literal followed by ANY text is scanned up to
-  exactly its own closing delimiter; that celpy's lexer also cuts the text at the remaining token
-  boundaries (numbers, `null`/`true`/`false` before `,` `]` `}`, and the six punctuation tokens) is not
-  re-proved — it is covered by the end-to-end oracle of harness/c11.py only.
+  The gap named in DESIGN.md 5/C11 (token-level abstraction) is closed: `tokenize` is a character-level
+  tokenizer for exactly the sub-language `encode_cel` emits, modelled on celpy's lark terminals, and
+  `chars_roundtrip` proves tokenise-then-parse of the emitted character list for every value.  The
+  token-level theorems (`value_roundtrip`, `encoding_is_token_text`) are kept.  What the character
+  level ASSUMES about celpy (trusted, validated by harness/c11.py against real celpy's token stream on
+  the emitted texts): the contextual lexer ignores WHITESPACE; tries FLOAT_LIT before INT_LIT and both
+  before the MINUS operator, so `-5` is one INT_LIT; a number token is the greedy match of
+  `-? DIGIT+ ("." DIGIT*)? EXP?` / `-? DIGIT* "." DIGIT+ EXP?` / `-? DIGIT+ EXP` with EXP taken only when
+  complete; MLSTRING_LIT is tried before STRING_LIT and both stop at the first closing delimiter not
+  consumed by an escape (`scanLong` / `scanShort`); a run `[_a-zA-Z][_a-zA-Z0-9]*` is BOOL_LIT / NULL_LIT
+  exactly when it is `true` / `false` / `null`; `[ ] { } , :` are single-character tokens; the LALR
+  parser builds lists and maps from that token stream as `pVal` does.
 
   On the unrepaired tree the clauses below were false (`a\nb`, `x"""y⏎`, keys with `"` or newline,
   `inf`, `nan`, ` 12`, `1_0`, `+5`, `١٢`; corpus/C11/*.json): there `escapes_match_source` does not
@@ -159,6 +165,44 @@ theorem numeralise_keeps_text (s : String) (hn : isNumeral s.toList = false) :
   | none => simp [numeralise, numeraliseStr, hp]
   | some p => simp [hp] at hn
 
+/-! ## character level: tokenise-then-parse of the emitted text (closes the token-level gap) -/
+
+/-- ints and the dyadic floats are printed as decimal numerals, so the one numeral lemma covers
+    every number token `encode_cel` writes -/
+theorem numbers_print_as_numerals (n e : Int) :
+    isNumeral (renderInt n) = true ∧ isNumeral (renderFlt e) = true :=
+  ⟨isNumeral_renderInt n, isNumeral_renderFlt e⟩
+
+/-- token boundaries, one clause per terminal class: followed by the end of the text or by one of
+    `, ] } :`, a numeral (INT_LIT / FLOAT_LIT incl. sign, fraction, exponent), a quoted string
+    (STRING_LIT / MLSTRING_LIT) and `null` / `true` / `false` are each cut off as ONE token whose text is
+    exactly the text written — nothing less (`12` of `12.5e3`), nothing more (`""` + `"`, `true` + `x`) -/
+theorem token_boundaries (rest : Str) (hs : sepStart rest) :
+    (∀ x, isNumeral x = true → nextTok (x ++ rest) = some (.lit x, x.length)) ∧
+    (∀ s, nextTok (quoteStr s ++ rest) = some (.lit (quoteStr s), (quoteStr s).length)) ∧
+    (∀ w, w = nullText ∨ w = trueText ∨ w = falseText → nextTok (w ++ rest) = some (.lit w, w.length)) :=
+  ⟨fun x h => nextTok_numeral x rest h hs, fun s => nextTok_quoteStr s rest hs,
+   fun w h => nextTok_word w rest h hs⟩
+
+/-- the character-level tokenizer cuts the emitted text of EVERY value into exactly the tokens `toks v`
+    (mutual induction over `JVal`: unbounded nesting and width) -/
+theorem tokenize_emitted (v : JVal) (h : noExpr v = true) : tokenize (enc v) = some (toks v) := by
+  have := tokenize_enc v h [] sepStart_nil
+  simpa [tokenize, appToks] using this
+
+/-- tokenise-then-parse of the emitted character list gives back the value as written, numeral
+    strings numeralised — for every JSON value -/
+theorem chars_roundtrip (v : JVal) (h : noExpr v = true) : parseChars (enc v) = some (numeralise v) := by
+  unfold parseChars
+  rw [tokenize_emitted v h]
+  exact value_roundtrip v h
+
+/-- the same, stated on the `String` that `encodeCel` returns -/
+theorem chars_roundtrip_string (v : JVal) (h : noExpr v = true) :
+    parseChars (encodeCel v).toList = some (numeralise v) := by
+  have : (encodeCel v).toList = enc v := by simp [encodeCel]
+  rw [this]; exact chars_roundtrip v h
+
 /-! ## non-vacuity: the hypotheses are met by the hard cases themselves -/
 
 /-- `a\nb` (a literal backslash) is written `"a\\nb"` -/
@@ -180,6 +224,12 @@ example : encodeStr "3213".toList = "3213".toList ∧ encodeStr "72.3".toList = 
 
 /-- a numeral: `-1.50e-3` splits into its parts and denotes −15·10⁻⁴ -/
 example : (splitNumeral "-1.50e-3".toList).map NumParts.text = some "-1.50e-3".toList := by decide
+
+/-- separators exist; and a concrete emitted text is cut into its tokens and read back -/
+example : sepStart [',', 'x'] ∧ sepStart [] := ⟨sepStart_comma _, sepStart_nil⟩
+example : parseChars (enc (.obj [("k\"", .arr [.int (-5), .flt 12, .str "1e5", .str "a\\nb", .null, .bool true, .arr [], .obj []])]))
+    = some (numeralise (.obj [("k\"", .arr [.int (-5), .flt 12, .str "1e5", .str "a\\nb", .null, .bool true, .arr [], .obj []])])) :=
+  chars_roundtrip _ (by decide)
 
 /-- a nested value meeting `noExpr`, with a numeral string, a numeral-looking key, quotes in a key -/
 example : noExpr (.obj [("k\"", .arr [.str "12", .str " 12", .int (-5), .flt (-13), .null, .bool true, .arr [], .obj []]),
